@@ -123,7 +123,14 @@ def f_embed(F, res):
                 wt = [x for x in to if x.kind == "call" and x.callee.endswith("Workspace::tir")]
                 if wt:
                     no = mir.provenance(f, du, wt[0].term["args"][1])
-                    if any(".name" in x.proj and ".value" in x.proj for x in no):
+                    # ... and it is the name of the very transaction under whose key the envelope is published
+                    keys = set()
+                    for bj, t2 in mir.calls(f):
+                        if (t2.get("callee") or "").endswith("HashMap::<K, V, S, A>::insert") and len(t2["args"]) > 2:
+                            vo2 = mir.provenance(f, du, t2["args"][2])
+                            if any(x.kind == "agg" and x.rv.get("adt") == "tx3c::tii::types::Transaction" for x in vo2):
+                                keys |= {repr(x) for x in mir.provenance(f, du, t2["args"][1])}
+                    if any(".name" in x.proj and ".value" in x.proj for x in no) and ({repr(x) for x in no} & keys):
                         good = True
             vo = mir.provenance(f, du, rv["ops"][rv["fields"].index("version")])
             if any(x.kind == "call" and x.callee == "tx3_tir::encoding::to_bytes" and ".1" in x.proj for x in vo):
